@@ -430,6 +430,45 @@ func genC19() (string, []string) {
 `, reg, sig, vuse, callback, inner, outer, id, nOuter, nInner))
 		}
 	}
+	// results and argument windows are not shared between host calls: a result slice still held by the host keeps its
+	// values across the next Call/Func, and a native invoked DIRECTLY by Call keeps its args across a nested Call
+	add("held_results_survive_next_call", prelude(3, 0)+`	if _, err := verifEval(vm, verifMkFS(nil), "func add(x, y int) int { return x + y }\nfunc pair(x, y int) (int, int) { return y, x }", 0); err != nil {
+		verifAssert(false, "C19/held/eval")
+		return
+	}
+	r1, err1 := vm.Call("main.add", 1, Int32(a[0]), Int32(a[1]))
+	r2, err2 := vm.Call("main.pair", 2, Int32(a[2]), Int32(a[3]))
+	r3, err3 := vm.Func(vm.Get("main.add"), 1, Int32(a[3]), Int32(a[0]))
+	verifAssert(err1 == nil && err2 == nil && err3 == nil && len(r1) == 1 && len(r2) == 2 && len(r3) == 1, "C19/held/outcome")
+	if err1 == nil && err2 == nil && err3 == nil && len(r1) == 1 && len(r2) == 2 && len(r3) == 1 {
+		verifAssert(r1[0].num == float64(a[0]+a[1]), "C19/held/first-result-unchanged-by-later-calls")
+		verifAssert(r2[0].num == float64(a[3]) && r2[1].num == float64(a[2]), "C19/held/second-result-unchanged-by-later-calls")
+		verifAssert(r3[0].num == float64(a[3]+a[0]), "C19/held/third-result")
+	}
+`)
+	add("native_called_by_host_keeps_args_across_nested_call", prelude(3, 0)+`	var before, after []Value
+	vm.Set("main.nat", NewFunc(3, 1, func(v *VM, args []Value) []Value {
+		before = append(before, args...)
+		rets, err := v.Call("main.add", 1, Int32(200), Int32(200))
+		if err != nil || len(rets) != 1 {
+			panic("nested call failed")
+		}
+		after = append(after, args...)
+		return []Value{rets[0]}
+	}))
+	if _, err := verifEval(vm, verifMkFS(nil), "func add(x, y int) int { return x + y }", 0); err != nil {
+		verifAssert(false, "C19/host-native/eval")
+		return
+	}
+	rets, err := vm.Call("main.nat", 1, Int32(a[0]), Int32(a[1]), Int32(a[2]))
+	verifAssert(err == nil && len(rets) == 1 && rets[0].num == 400, "C19/host-native/outcome")
+	verifAssert(len(before) == 3 && len(after) == 3, "C19/host-native/argc")
+	for i := 0; i < 3 && i < len(before) && i < len(after); i++ {
+		verifAssert(before[i].num == float64(a[i]) && after[i].num == float64(a[i]), "C19/host-native/args-unchanged-by-the-nested-call")
+	}
+	rets2, err := vm.Func(vm.Get("main.nat"), 1, Int32(a[2]), Int32(a[1]), Int32(a[0]))
+	verifAssert(err == nil && len(rets2) == 1 && rets2[0].num == 400 && rets[0].num == 400, "C19/host-native/func-form")
+`)
 	return sb.String(), names
 }
 
